@@ -164,18 +164,20 @@ const (
 		where key = ? and type = 2 and (etime is null or etime > ?)
 	),
 	counts as (
-		select len from rkey
-		where id = (select id from curkey)
+		select coalesce((
+			select len from rkey
+			where id = (select id from curkey)
+		), 0) as len
 	),
 	bounds as (
 		select
 			case when ? < 0
-				then (select len from counts) + ?
+				then max((select len from counts) + ?, 0)
 				else ?
 			end as start,
 			case when ? < 0
 				then (select len from counts) + ?
-				else ?
+				else min(?, (select len from counts) - 1)
 			end as stop
 	)
 	select elem
@@ -184,7 +186,7 @@ const (
 	order by pos
 	limit
 		(select start from bounds),
-		((select stop from bounds) - (select start from bounds) + 1)`
+		max((select stop from bounds) - (select start from bounds) + 1, 0)`
 
 	sqlSet = `
 	with curkey as (
@@ -206,18 +208,20 @@ const (
 		where key = ? and type = 2 and (etime is null or etime > ?)
 	),
 	counts as (
-		select len from rkey
-		where id = (select id from curkey)
+		select coalesce((
+			select len from rkey
+			where id = (select id from curkey)
+		), 0) as len
 	),
 	bounds as (
 		select
 			case when ? < 0
-				then (select len from counts) + ?
+				then max((select len from counts) + ?, 0)
 				else ?
 			end as start,
 			case when ? < 0
 				then (select len from counts) + ?
-				else ?
+				else min(?, (select len from counts) - 1)
 			end as stop
 	),
 	remain as (
@@ -226,7 +230,7 @@ const (
 		order by pos
 		limit
 			(select start from bounds),
-			((select stop from bounds) - (select start from bounds) + 1)
+			max((select stop from bounds) - (select start from bounds) + 1, 0)
 	)
 	delete from rlist
 	where
